@@ -362,6 +362,12 @@ class WebSocketApp:
             self._callback(self.on_close, close_status_code, close_reason)
 
         def setSock(reconnecting: bool = False) -> None:
+            if reconnecting and not self.keep_running:
+                # close() was called while the reconnection was pending
+                # (e.g. on the timer of an external dispatcher)
+                teardown()
+                return
+
             if reconnecting and self.sock:
                 self.sock.shutdown()
 
